@@ -40,6 +40,17 @@ theorem inject_keeps_lines (source : Text) (store : Store) (h : noAppendMode sto
   rw [inject_eq source store h, rustLines_preamble]
   exact ⟨_, rfl⟩
 
+/-- with `client_id_mode = append_pipeline` a line is either unchanged or one reference
+`.from(name,` / `.to(name,` outside any string literal received a `client_id` parameter (quote and
+backslash of the stored id escaped); lines that are no `stream …` lines are never touched -/
+theorem append_pipeline_touches_one_reference (cname baseId line : Text) :
+    (("stream ".toList.isPrefixOf (Varpulis.Expand.trim line) = false) → appendLine cname baseId line = line) ∧
+    (appendLine cname baseId line = line ∨
+      ∃ a b p ins, line = a ++ p ++ b ∧ appendLine cname baseId line = a ++ ins ++ b ∧
+        (p = ".from(".toList ++ cname ++ [','] ∨ p = ".to(".toList ++ cname ++ [',']) ∧
+        ∃ pname, ins = p.dropLast ++ ", client_id: \"".toList ++ escape baseId ++ ['-'] ++ pname ++ "\",".toList) :=
+  ⟨appendLine_other cname baseId line, appendLine_shape cname baseId line⟩
+
 /-! The defects of the unchanged tree, on the model's reading of the grammar: what the old rendering
 (unquoted whenever `parse::<i64>()` or `parse::<f64>()` succeeds, no escaping) produced. -/
 
